@@ -411,4 +411,17 @@ class PartialJoin(UnaryOperation):
                             f"that are also present in {self.fixed}",
                         ),
                     )
+                shadowed = (self.fixed.columns - self.binary.common_columns) & current.operation.columns_required
+                if shadowed:
+                    # After the join these names may refer to the fixed
+                    # relation's columns instead of the target's.
+                    return UnaryCommutator(
+                        first=None,
+                        second=current.operation,
+                        done=False,
+                        messages=(
+                            f"{current.operation} requires columns {set(shadowed)} that are also "
+                            f"present in {self.fixed} but are not join columns",
+                        ),
+                    )
                 return UnaryCommutator(first=self, second=current.operation)
